@@ -73,7 +73,7 @@ def discharge_one(ob, budget, smoke_budget, ledger_entry, thorough):
         return res
     b = budget
     if ledger_entry and ledger_entry.get('time'):
-        b = max(budget, 10 * ledger_entry['time'])
+        b = min(max(budget, 4 * ledger_entry['time']), 4 * budget)
     order = ['z3', 'cvc5']
     if ledger_entry and ledger_entry.get('solver') == 'cvc5':
         order = ['cvc5', 'z3']
@@ -92,7 +92,7 @@ def discharge_one(ob, budget, smoke_budget, ledger_entry, thorough):
         total += dt
         res['tries'].append((sname, v, round(dt, 2)))
         if v == 'unsat':
-            verdict = 'unsat'; res['solver'] = sname; break
+            verdict = 'unsat'; res['solver'] = sname; res['win_time'] = dt; break
         if v == 'sat':
             verdict = 'sat'; res['solver'] = sname
             v2, dt2, model = (run_z3 if sname == 'z3' else run_cvc5)(ob['path'], b, model=True)
@@ -121,6 +121,47 @@ def discharge_one(ob, budget, smoke_budget, ledger_entry, thorough):
     return res
 
 
+def portfolio(ob, budget):
+    """all solver/premise-variant combinations at once; the first `unsat` (or `sat` on the full VC) wins, the rest is killed"""
+    import threading
+    variants = [('z3', ob['path'], 'full'), ('cvc5', ob['path'], 'full'), ('z3', ob['path'], 'seed7')]
+    if ob.get('focus_path'):
+        for v in ('focus', 'nohint'):
+            p = ob['focus_path'].replace('.focus.', f'.{v}.')
+            variants += [('z3', p, v), ('cvc5', p, v)]
+    procs, lock, out = [], threading.Lock(), dict(verdict='unknown', tries=[], solver=None)
+    t0 = time.time()
+    def run(sname, path, variant):
+        if sname == 'z3':
+            cmd = [Z3, f'-T:{int(budget)}'] + (['smt.random_seed=7', 'sat.random_seed=7'] if variant == 'seed7' else []) + [path]
+        else:
+            cmd = [CVC5, f'--tlimit={int(budget * 1000)}', '--lang=smt2', path]
+        try:
+            p = subprocess.Popen(cmd, stdout=subprocess.PIPE, stderr=subprocess.PIPE, text=True)
+        except Exception:
+            return
+        with lock: procs.append(p)
+        try:
+            so, se = p.communicate(timeout=budget + 5)
+        except subprocess.TimeoutExpired:
+            p.kill(); so = ''
+        first = (so or '').strip().splitlines()[:1]
+        v = first[0].strip() if first else 'timeout'
+        with lock:
+            out['tries'].append((f'{sname}/{variant}', v if v in ('sat', 'unsat', 'unknown') else 'timeout', round(time.time() - t0, 2)))
+            if v == 'unsat' and out['verdict'] != 'unsat':
+                out['verdict'] = 'unsat'; out['solver'] = sname if variant in ('full', 'seed7') else f'{sname}/{variant}'
+                for q in procs:
+                    if q is not p and q.poll() is None: q.kill()
+            elif v == 'sat' and variant == 'full' and out['verdict'] == 'unknown':
+                out['verdict'] = 'sat'; out['solver'] = sname
+    ths = [threading.Thread(target=run, args=v) for v in variants]
+    for t in ths: t.start()
+    for t in ths: t.join()
+    out['time'] = time.time() - t0
+    return out
+
+
 def discharge_all(obs, ledger, budget=30, smoke_budget=2, thorough=False, jobs=None, progress=None):
     jobs = jobs or (os.cpu_count() or 4)
     results = []
@@ -131,15 +172,17 @@ def discharge_all(obs, ledger, budget=30, smoke_budget=2, thorough=False, jobs=N
             results.append(r)
             if progress:
                 progress(i, r)
-    # retry round: what stayed undecided while all cores were busy is re-tried with a larger budget on a quiet machine
+    # retry round: what stayed undecided while all cores were busy is re-tried on a quiet machine, all variants in parallel
     retry = [i for i, r in enumerate(results) if r['kind'] != 'smoke' and r['verdict'] not in ('unsat', 'sat')]
-    if retry and len(retry) <= 64:
-        with ThreadPoolExecutor(max_workers=min(jobs, 8)) as pool:
-            futs = {i: pool.submit(discharge_one, obs[i], budget * 4, smoke_budget, ledger.get(obs[i]['name']), True) for i in retry}
+    if retry and len(retry) <= 48:
+        with ThreadPoolExecutor(max_workers=2) as pool:
+            futs = {i: pool.submit(portfolio, obs[i], budget * 4) for i in retry}
             for i, f in futs.items():
-                r = f.result()
-                r['tries'] = results[i]['tries'] + [('retry-round', '', 0)] + r['tries']
-                r['time'] += results[i]['time']
-                results[i] = r
+                pr = f.result()
+                r = results[i]
+                r['tries'] = r['tries'] + [('retry-round', '', 0)] + pr['tries']
+                r['time'] += pr['time']
+                if pr['verdict'] in ('unsat', 'sat'):
+                    r['verdict'] = pr['verdict']; r['solver'] = pr['solver']
                 if progress: progress(i, r)
     return results
